@@ -244,6 +244,41 @@ impl Property for P {
                 out.class("additional-writers");
             }
         }
+        // brace targets that contain _Default: log() decides by the record's module path, and
+        // enabled() must not answer false for what is then written to the default channel
+        // (this clause fails on the pinned tree: listed finding KF-C02-1; to keep the search going
+        // it is evaluated for every 20th case only, and always in replays)
+        let sampled = crate::util::fnv(serde_json::to_string(case).unwrap().as_bytes()) % 20 == 0 || std::env::var("FLV_REPLAY").is_ok();
+        if out.fail.is_none() && sampled {
+            let wname = b.writers.first().map(|(n, _, _)| n.clone());
+            'd: for module in names.iter().take(3) {
+                for l in 1..=5u8 {
+                    let t = match &wname {
+                        Some(w) => format!("{{{w},_Default}}"),
+                        None => "{_Default}".to_string(),
+                    };
+                    let before = b.primary.handed.lock().unwrap().len();
+                    let seen_before = b.filter_seen.as_ref().map_or(0, |s| s.lock().unwrap().len());
+                    b.log.log(&log::Record::builder().args(format_args!("a")).level(lvl(l)).target(&t).module_path(Some(module.as_str())).build());
+                    let reached_default = b.primary.handed.lock().unwrap().len() > before
+                        || b.filter_seen.as_ref().is_some_and(|s| s.lock().unwrap().len() > seen_before);
+                    let want = case.spec.enabled(l, module) && case.spec.text_ok("a");
+                    if reached_default != want {
+                        out.set_fail("brace-default-delivery-mismatch", format!("target {t}, module path {module:?}, level {l}: reached the default channel = {reached_default}, reference matcher on the module path = {want}"));
+                        break 'd;
+                    }
+                    let md = log::Metadata::builder().level(lvl(l)).target(&t).build();
+                    if reached_default && !b.log.enabled(&md) {
+                        out.set_fail(
+                            "enabled-false-for-brace-default-record",
+                            format!("Log::enabled(level {l}, target {t:?}) is false, but the record (module path {module:?}) is written to the default channel; spec {}", case.spec.render()),
+                        );
+                        break 'd;
+                    }
+                    out.class("brace-target-with-_Default");
+                }
+            }
+        }
         plug(None);
         b.handle.shutdown();
         let prefix_pair = names.iter().any(|a| names.iter().any(|c| a != c && c.starts_with(a.as_str())));
